@@ -202,81 +202,107 @@ fn seeding<S: Src>(s: &mut S) {
     core::mem::forget(map);
 }
 
-/// A small map on concrete registers with symbolic payloads.
-fn draw_value<S: Src>(s: &mut S) -> AvailableValue {
-    let k = s.choice(3);
-    let x = s.i32();
-    let qreg = if s.bool() { Register::X2 } else { Register::X8 };
-    match k {
-        0 => AvailableValue::Constant(x),
-        1 => AvailableValue::OriginalRegisterWithScalar(qreg, x),
-        _ => AvailableValue::RegisterWithScalar(qreg, x),
+/// Plain description of a fact value (so that the harness never has to clone a map).
+#[derive(Clone, Copy, PartialEq, Eq)]
+struct Spec {
+    present: bool,
+    kind: u8,
+    payload: i32,
+    sp: bool,
+}
+
+fn draw_spec<S: Src>(s: &mut S, always: bool) -> Spec {
+    let present = if always { true } else { s.bool() };
+    Spec { present, kind: s.choice(3), payload: s.i32(), sp: s.bool() }
+}
+
+fn make(v: &Spec) -> AvailableValue {
+    let q = if v.sp { Register::X2 } else { Register::X8 };
+    match v.kind {
+        0 => AvailableValue::Constant(v.payload),
+        1 => AvailableValue::OriginalRegisterWithScalar(q, v.payload),
+        _ => AvailableValue::RegisterWithScalar(q, v.payload),
+    }
+}
+
+fn same(a: &Spec, b: &Spec) -> bool {
+    a.kind == b.kind && a.payload == b.payload && (a.kind == 0 || a.sp == b.sp)
+}
+
+fn matches_spec(v: &AvailableValue, sp: &Spec) -> bool {
+    let q = if sp.sp { Register::X2 } else { Register::X8 };
+    match (v, sp.kind) {
+        (AvailableValue::Constant(c), 0) => *c == sp.payload,
+        (AvailableValue::OriginalRegisterWithScalar(r, c), 1) => *r == q && *c == sp.payload,
+        (AvailableValue::RegisterWithScalar(r, c), 2) => *r == q && *c == sp.payload,
+        _ => false,
     }
 }
 
 /// Meet: `a &= &b` keeps exactly the keys bound to EQUAL values in both maps.
 fn meet<S: Src>(s: &mut S) {
     let keys = [Register::X2, Register::X5];
+    let sa = [draw_spec(s, true), draw_spec(s, false)];
+    let sb = [draw_spec(s, true), draw_spec(s, false)];
     let mut a: AvailableValueMap<Register> = AvailableValueMap::new();
     let mut b: AvailableValueMap<Register> = AvailableValueMap::new();
     let mut i = 0;
-    a.insert(keys[0], draw_value(s));
-    b.insert(keys[0], draw_value(s));
-    if s.bool() {
-        a.insert(keys[1], AvailableValue::Constant(s.i32()));
+    while i < 2 {
+        if sa[i].present {
+            a.insert(keys[i], make(&sa[i]));
+        }
+        if sb[i].present {
+            b.insert(keys[i], make(&sb[i]));
+        }
+        i += 1;
     }
-    if s.bool() {
-        b.insert(keys[1], AvailableValue::Constant(s.i32()));
-    }
-    let a0 = a.clone();
     a &= &b;
     let mut i = 0;
     while i < 2 {
-        let k = keys[i];
-        let both_equal = match (a0.get(&k), b.get(&k)) {
-            (Some(x), Some(y)) => x == y,
-            _ => false,
-        };
-        match a.get(&k) {
+        let both_equal = sa[i].present && sb[i].present && same(&sa[i], &sb[i]);
+        match a.get(&keys[i]) {
             Some(v) => {
                 crate::seen!(true, "I:a key survives the meet");
                 assert!(both_equal, "[C01] meet keeps a fact that is not in both predecessors with the same value");
-                assert!(a0.get(&k) == Some(v), "[C01] meet changes a value");
+                assert!(matches_spec(v, &sa[i]), "[C01] meet changes a value");
             }
             None => assert!(!both_equal, "[C01,C12] meet drops a fact both predecessors agree on"),
         }
         i += 1;
     }
-    assert!(a.len() <= a0.len() && a.len() <= b.len(), "[C01] meet is larger than an operand");
     crate::witness!(true, "W:end");
-    core::mem::forget((a, b, a0));
+    core::mem::forget((a, b));
 }
 
 /// `map -= registers` removes exactly those keys (the kill step of the transfer function).
 fn kill_step<S: Src>(s: &mut S) {
     let keys = [Register::X2, Register::X5];
+    let sa = [draw_spec(s, true), draw_spec(s, false)];
     let mut a: AvailableValueMap<Register> = AvailableValueMap::new();
     let mut i = 0;
-    a.insert(keys[0], draw_value(s));
-    if s.bool() {
-        a.insert(keys[1], AvailableValue::Constant(s.i32()));
+    while i < 2 {
+        if sa[i].present {
+            a.insert(keys[i], make(&sa[i]));
+        }
+        i += 1;
     }
-    let a0 = a.clone();
     let r = s.reg();
     let set = riscv_analysis::cfg::RegisterSet::from_register(mk::reg(r));
     a -= set.iter();
     let mut i = 0;
     while i < 2 {
         let k = keys[i];
-        if k.to_num() == r {
-            assert!(a.get(&k).is_none(), "[C01] kill leaves a fact about the overwritten register");
-        } else {
-            assert!(a.get(&k) == a0.get(&k), "[C01] kill changes a fact about another register");
+        match a.get(&k) {
+            Some(v) => {
+                assert!(k.to_num() != r, "[C01] kill leaves a fact about the overwritten register");
+                assert!(sa[i].present && matches_spec(v, &sa[i]), "[C01] kill changes a fact about another register");
+            }
+            None => assert!(k.to_num() == r || !sa[i].present, "[C01] kill removes a fact about another register"),
         }
         i += 1;
     }
     crate::witness!(true, "W:end");
-    core::mem::forget((a, a0));
+    core::mem::forget(a);
 }
 
 crate::obligations! {
@@ -337,6 +363,6 @@ crate::obligations! {
     fn gen_seeding(s) { seeding(s) }
     #[kani::unwind(8)]
     fn gen_meet(s) { meet(s) }
-    #[kani::unwind(8)]
+    #[kani::unwind(34)]
     fn gen_kill_step(s) { kill_step(s) }
 }
